@@ -387,6 +387,10 @@ func (p *parser) checkAlias(mAlias ast.Alias, typeSensitive bool, start int, cac
 	return args, nil, nil, reported_errors
 }
 
+// maximum nesting depth of generic function instantiations
+// (a generic function that calls itself with ever growing types would otherwise never stop)
+const maxGenericInstantiationDepth = 64
+
 // instantiates a generic function with the given types
 // genericTypes maps GenericTypeName -> Type
 // returns the new instantiation and any errors that occured during instatiation
@@ -444,6 +448,23 @@ func (p *parser) InstantiateGenericFunction(genericFunc *ast.FuncDecl, genericTy
 		return &decl, nil
 	}
 
+	if p.instantiationOverflow == nil {
+		p.instantiationOverflow = new(bool)
+	}
+	if p.instantiationDepth == 0 {
+		defer func() { *p.instantiationOverflow = false }()
+	}
+	if *p.instantiationOverflow || p.instantiationDepth >= maxGenericInstantiationDepth {
+		*p.instantiationOverflow = true
+		return nil, []ddperror.Error{ddperror.New(
+			ddperror.TYP_COULD_NOT_INSTANTIATE_GENERIC,
+			ddperror.LEVEL_ERROR,
+			genericFunc.NameTok.Range,
+			fmt.Sprintf("Die generische Funktion '%s' wird zu tief verschachtelt instanziiert", genericFunc.Name()),
+			genericFunc.Mod.FileName,
+		)}
+	}
+
 	context := p.generateGenericContext(genericFunc.Generic.Context, parameters, genericTypes)
 
 	errorCollector := ddperror.Collector{}
@@ -452,6 +473,8 @@ func (p *parser) InstantiateGenericFunction(genericFunc *ast.FuncDecl, genericTy
 		errorHandler:          errorCollector.GetHandler(),
 		module:                genericFunc.Mod,
 		genericModule:         genericModule,
+		instantiationDepth:    p.instantiationDepth + 1,
+		instantiationOverflow: p.instantiationOverflow,
 		aliases:               context.Aliases,
 		currentFunction:       &decl,
 		isCurrentFunctionBool: ddptypes.Equal(decl.ReturnType, ddptypes.WAHRHEITSWERT),
